@@ -82,8 +82,43 @@ def _build(form, xs, ys):
     raise ValueError(form)
 
 
+def _shift_poly(coefs, c):
+    """coefficients of p(x - c)"""
+    out = [Fraction(0)]
+    for a in reversed(coefs):
+        # out = out * (x - c) + a
+        nxt = [Fraction(0)] * (len(out) + 1)
+        for k, v in enumerate(out):
+            nxt[k + 1] += v
+            nxt[k] -= v * c
+        nxt[0] += Fraction(a)
+        out = nxt
+    while len(out) > 1 and out[-1] == 0:
+        out.pop()
+    return out
+
+
+def _cycle_tables(rng):
+    """x^5 - 3x^3 + 6x is monotonic with its only root at 0, and Newton's iteration started at 1 alternates 1, -1, 1, ...
+    exactly; tabulated at seven integers around the root (so the interpolant IS the polynomial) and searched on an interval
+    whose midpoint is that starting point, every Newton step lands exactly on an end of the bracket"""
+    base5 = [0, 6, 0, -3, 0, 1]
+    for c in (0, 3, -5, 10):
+        coefs = _shift_poly(base5, c)
+        xq = [4 * (c + k) for k in range(-2, 5)]
+        rng.shuffle(xq)
+        ys = [float(_poly(coefs, Fraction(q, 4))[0]) for q in xq]
+        for (a, b) in ((c - 1.5, c + 3.5), (c + 3.5, c - 1.5), (c - 3.5 + 2.0, c + 1.5 + 2.0 - 2.0)):
+            r2 = random.Random("cycle/%s/%s" % (c, a))
+            r2.special = (a, b)
+            yield r2, list(xq), [q / 4.0 for q in xq], ys, coefs, rng.choice(["lists", "tuples", "set", "copy"])
+
+
 def _tables(seed, shard, n):
     rng = random.Random("interp/%s/%s" % (seed, shard))
+    if shard % 4 == 0:
+        for t in _cycle_tables(rng):
+            yield t
     for _ in range(n):
         npts = rng.randint(2, 9)
         kind = rng.random()
@@ -198,6 +233,8 @@ def gen_interp(seed, shard, n):
                 continue
             cand.append((a, b))
         cand.append((xmin, xmax))
+        if getattr(rng, "special", None):
+            cand = [rng.special]
         # the object's tolerance must be attainable in floating point for data of this size
         tol = max(1e-10, 1e-9 * max(abs(v) for v in ys))
         it.set_tolerance(tol)
@@ -205,14 +242,51 @@ def gen_interp(seed, shard, n):
             for kind, f, t in (("root", it.root, tol), ("minmax", it.minmax, 1e-10)):
                 if kind == "minmax" and len(xs) < 3:
                     continue
-                ev = dict(held, k=kind, site=kind, xl=fx(a), xh=fx(b), xlf=a, xhf=b, tol=fx(t),
+                ev = dict(held, k=kind, site=kind, xl=fx(a), xh=fx(b), xlf=a, xhf=b, tol=fx(t), tight=0,
                           touch=_touching(coefs, kind, max(min(a, b), xmin), min(max(a, b), xmax)))
+                if getattr(rng, "special", None) and kind == "root":
+                    ev["touch"] = 0        # p' = 5x^4 - 9x^2 + 6 >= 1.95: provably no (nearly) double root (the heuristic is relative)
                 try:
                     r = f(a, b)
                     ev["r"], ev["oc"], ev["rf"] = fx(r), "ok", r
                 except Exception as ex:
                     ev["r"], ev["oc"] = BAD, _oc(ex)
                 yield ev
+        # a tightened tolerance (1e-12, attainable for data of size <= 50) and a search limit a hair beyond a simple root:
+        # the value at the limit is below 1e-10 but above the object's tolerance - "vanishes to the OBJECT's tolerance"
+        if coefs is not None and len(coefs) >= 2 and max(abs(v) for v in ys) <= 50.0 and len(xs) >= 3:
+            fl = [float(c) for c in coefs]
+            pf = lambda x: sum(c * x ** k for k, c in enumerate(fl))
+            srt = sorted(xs)
+            for lo_, hi_ in zip(srt, srt[1:]):
+                if pf(lo_) * pf(hi_) < 0:
+                    u, v = lo_, hi_
+                    for _ in range(80):
+                        mid = 0.5 * (u + v)
+                        if pf(u) * pf(mid) <= 0:
+                            v = mid
+                        else:
+                            u = mid
+                    r0 = 0.5 * (u + v)
+                    slope = abs(float(_poly(coefs, Fraction(r0))[1]))
+                    if slope < 0.05 or slope > 1e3:
+                        break
+                    side = rng.choice([1, -1])
+                    lim = r0 + side * rng.choice([3e-11, 5e-11, 8e-11]) / slope          # |p(lim)| = 3..8e-11
+                    other = srt[0] if side > 0 else srt[-1]
+                    if not (min(other, lim) < r0 < max(other, lim)) or abs(lim - min(srt, key=lambda z: abs(z - lim))) < 1e-3:
+                        break
+                    a, b = (other, lim) if rng.random() < 0.5 else (lim, other)
+                    it.set_tolerance(1e-12)
+                    ev = dict(held, k="root", site="root", xl=fx(a), xh=fx(b), xlf=a, xhf=b, tol=fx(1e-12), tight=1,
+                              touch=_touching(coefs, "root", min(a, b), max(a, b)))
+                    try:
+                        r = it.root(a, b)
+                        ev["r"], ev["oc"], ev["rf"] = fx(r), "ok", r
+                    except Exception as ex:
+                        ev["r"], ev["oc"] = BAD, _oc(ex)
+                    yield ev
+                    break
 
 
 def gen_conj(seed, shard, n):
